@@ -4,7 +4,7 @@ media table (src/inscriptions/media.rs) -> Generated/ServerLayers.lean.
 What is read (each with a shape assertion; ShapeError = fail closed):
 
 * in `Server::run`, every statement `let <name> = <base><chain>;` between the comment
-  `// non-recursive endpoints` and `match (self.http_port(), self.https_port())` whose base is
+  `let router = Router::new()` (under the comment "non-recursive endpoints") and `match (self.http_port(), self.https_port())` whose base is
   `Router::new()` or a router variable.  Each chain is a sequence of method calls; accepted calls are
   `.route("<path>", <get|post>(<handler>)[.layer(body_limit)])`, `.merge(<router variable>)`,
   `.fallback(<handler>)`, `.layer(<known layer expression>)`, `.with_state(..)`.  Anything else is a
@@ -22,7 +22,7 @@ exactly the routes and the fallback present at the time of the call) is `Ord.Ser
 obligations over the table (`decide`) are in OrdModel/Theorems/C19.lean.
 """
 import os, re
-from extract import ShapeError, write_if_changed
+from extract import ShapeError, write_if_changed, read_src
 
 
 def lean_str(s):
@@ -97,7 +97,7 @@ def classify_layer(arg):
 
 def run(repo, gen):
     path = os.path.join(repo, "src", "subcommand", "server.rs")
-    src = open(path).read()
+    src = read_src(path)
     cut = src.find("#[cfg(test)]\nmod tests")
     body = src if cut < 0 else src[:cut]
 
@@ -105,11 +105,14 @@ def run(repo, gen):
     if not m:
         raise ShapeError("server.rs: Server::run not found")
     run_src = m.group(0)
-    a = run_src.find("// non-recursive endpoints")
+    # (comments are already removed by read_src; the section starts at the statement that builds the
+    # first Router, which the source introduces with the comment `non-recursive endpoints`)
+    ma = re.search(r"\n[ \t]*let router = Router::new\(\)", run_src)
+    a = ma.start() if ma else -1
     b = run_src.find("match (self.http_port(), self.https_port())")
     if a < 0 or b < 0 or b < a:
-        raise ShapeError("server.rs: Server::run no longer has the router section between `// non-recursive endpoints` and the port match")
-    sect = re.sub(r"//[^\n]*", "", run_src[a:b])
+        raise ShapeError("server.rs: Server::run no longer has the router section between `let router = Router::new()` and the port match")
+    sect = run_src[a:b]
 
     # statements
     stmts = []
@@ -226,7 +229,7 @@ def run(repo, gen):
 
     # media table
     mpath = os.path.join(repo, "src", "inscriptions", "media.rs")
-    msrc = open(mpath).read()
+    msrc = read_src(mpath)
     m = re.search(r"const TABLE: [^=]*= &\[(.*?)\n  \];", msrc, re.S)
     if not m:
         raise ShapeError("media.rs: Media::TABLE not found")
